@@ -31,11 +31,17 @@ def stiffness(ctx, L):
     if block is None:
         block = f.node.body
 
+    from . import shared_py as P_
+
+    def cn(node_or_text):
+        # rename-insensitive text (the comprehension variable may have any name)
+        return P_._canon(node_or_text, P_.module_globals(m) | {'self'})
+
     def test_value(t, s):
         src = ws(unparse(t))
         if src == 'self.members[-1].greedy':
             return s['last_greedy']
-        if src == 'any((x.is_dynamic for x in self.members))':
+        if cn(t) == cn('any((x.is_dynamic for x in self.members))'):
             return s['any_dyn']
         raise AnalysisError('calc_wire_stiffness: unrecognised test `%s`' % src)
 
@@ -43,10 +49,12 @@ def stiffness(ctx, L):
         src = ws(unparse(v))
         if src in ('Kind.UNLIMITED', 'Kind.DYNAMIC', 'Kind.FIXED'):
             return predabs.KIND_NAMES[src.split('.')[1]]
-        if src == 'max((x.kind for x in self.members))':
+        if cn(v) == cn('max((x.kind for x in self.members))'):
             return s['max_kind']
         if src == 'self.kind':
             return s['_cur']
+        if isinstance(v, ast.Name) and ('local:' + v.id) in s:
+            return s['local:' + v.id]          # a local accumulator of the kind
         if src == 'self.members[-1].kind':
             return s['last_kind']
         if isinstance(v, ast.Call) and unparse(v.func) == 'max' and v.args:
@@ -59,6 +67,8 @@ def stiffness(ctx, L):
         for st in stmts:
             if isinstance(st, ast.Assign) and unparse(st.targets[0]) == 'self.kind':
                 s['_cur'] = eval_kind(st.value, s)
+            elif isinstance(st, ast.Assign) and len(st.targets) == 1 and isinstance(st.targets[0], ast.Name):
+                s['local:' + st.targets[0].id] = eval_kind(st.value, s)
             elif isinstance(st, ast.If):
                 run_block(st.body if test_value(st.test, s) else st.orelse, s)
             elif isinstance(st, (ast.For, ast.Expr, ast.Pass)):
